@@ -84,17 +84,40 @@ NewMapPairs == {"a:p", "a|p"}
 NewMapResult(pr) == IF pr = "a:p" THEN NewMapOp(ProbeQMap, <<[old |-> <<PK("a", -1)>>, new |-> <<"p">>]>>)
                     ELSE EmptyMap                                   \* "a|p" is the shorthand for a key that does not exist: skipped
 
+\* a list wider than the initial result capacity (32): ValuesForPath must not depend on the SetArraySize register
+ProbeWide == VM("a" :> VL([i \in 1..40 |-> VS("v" \o ToString(i))]))
+WidePaths == {<<PK("a", -1)>>, <<PK("a", 33)>>, <<PK("*", -1)>>}
+
+\* RenameKey("a.b", new) on {a:{b:1, c:2, ab-c:3}}: the new name is taken literally whatever the key-folding registers hold;
+\* an existing sibling name is refused
+RenameProbe == VM("a" :> VM(("b" :> VS("1")) @@ ("c" :> VS("2")) @@ ("ab-c" :> VS("3"))))
+RenameNames == {"Ab-c", "c", "AB-C"}
+RenameResult(nn) == IF nn \in DOMAIN RenameProbe.kv["a"].kv THEN VS("refused")
+                    ELSE VM("a" :> VM([k \in ((DOMAIN RenameProbe.kv["a"].kv) \ {"b"}) \cup {nn} |->
+                                           IF k = nn THEN RenameProbe.kv["a"].kv["b"] ELSE RenameProbe.kv["a"].kv[k]]))
+\* UpdateValuesForPath({id: Z}, "a", subkey): the sub-key string is read under the current separator
+UpdKResult(o, s) == LET pc == ParseSubKey(s, o.fieldSep) IN
+                    IF ~pc.ok THEN [ok |-> FALSE, c |-> 0, post |-> ProbeQMap]
+                    ELSE LET r == UpdateOp(ProbeQMap, "id", VS("Z"), <<"a">>, {pc.c}) IN [ok |-> TRUE, c |-> r.c, post |-> r.n]
+\* Copy is a JSON round trip: with JsonUseNumber the numbers of the copy are json.Number values
+NumTok(o, t) == IF o.jsonUseNumber THEN [t |-> "jn", v |-> t] ELSE VF(t)
+CopyResult(o) == VM(("n" :> (IF o.jsonUseNumber THEN [t |-> "jn", v |-> "1.50"] ELSE VF("1.5"))) @@ ("s" :> VS("x")) @@ ("l" :> VL(<<NumTok(o, "2"), VS("y")>>)))
+
 \* the operations: [op |-> class, arg |-> which]
 AllOps == {[op |-> "dec", arg |-> a] : a \in {"plain", "cast"}} \cup {[op |-> "seq", arg |-> "plain"], [op |-> "enc", arg |-> "plain"]}
           \cup {[op |-> "leaf", arg |-> a] : a \in {"T", "F"}}
           \cup {[op |-> "query", arg |-> Join(s)] : s \in SubKeyStrs}
           \cup {[op |-> "upd", arg |-> Join(s)] : s \in NewValStrs}        \* UpdateValuesForPath(s, "a") on a copy of the query probe
+          \cup {[op |-> "beautify", arg |-> "plain"], [op |-> "copy", arg |-> "plain"]}   \* calls of other areas: no effect on the registers
+          \cup {[op |-> "rename", arg |-> nn] : nn \in RenameNames}
+          \cup {[op |-> "updk", arg |-> Join(s)] : s \in SubKeyStrs}
+          \cup {[op |-> "vfp", arg |-> PathStr(p)] : p \in WidePaths}    \* ValuesForPath on the wide probe
           \cup {[op |-> "newmap", arg |-> pr] : pr \in NewMapPairs}       \* NewMap(pair) on the query probe
           \cup {[op |-> "struct", arg |-> a] : a \in {"elems", "attrs"}}   \* Elements("doc") / Attributes("doc") of the leaf probe
           \cup {[op |-> "seqrt", arg |-> "plain"]}                         \* MapSeq.Xml() of NewMapXmlSeq(probe)
-          \cup {[op |-> "json", arg |-> "plain"]}                          \* NewMapJson of a document with a non-canonical numeral
+          \cup {[op |-> "json", arg |-> a] : a \in {"plain", "reader"}}                          \* NewMapJson of a document with a non-canonical numeral
           \cup {[op |-> "cast", arg |-> t] : t \in CastTexts}          \* NewMapXml(<r><c>t</c><c>t</c></r>, true): kind and token of both members of r.c
-Enabled(o, op) == CASE op.op \in {"seq", "enc", "cast", "seqrt"} -> CodecDomain(o)
+Enabled(o, op) == CASE op.op \in {"seq", "enc", "cast", "seqrt", "beautify"} -> CodecDomain(o)
                     [] op.op = "dec" -> CodecDomain(o) /\ (op.arg = "cast" => DefaultCastRegs(o))   \* (the decode specification models the default cast registers; the full chain is MxjCast)
                     [] OTHER -> TRUE
 \* the result the specification gives for an operation under registers o
@@ -107,6 +130,11 @@ OpResult(o, op) ==
     [] op.op = "leaf" -> LeafSeq(ProbeLeafMap, op.arg = "T", o.dot, AttrKeysOf(o), o.keyPrefix \o "text")
     [] op.op = "query" -> QueryResult(o, CHOOSE s \in SubKeyStrs : Join(s) = op.arg)
     [] op.op = "upd" -> UpdResult(o, CHOOSE s \in NewValStrs : Join(s) = op.arg)
+    [] op.op = "beautify" -> "ok"
+    [] op.op = "copy" -> CopyResult(o)
+    [] op.op = "rename" -> RenameResult(op.arg)
+    [] op.op = "updk" -> UpdKResult(o, CHOOSE s \in SubKeyStrs : Join(s) = op.arg)
+    [] op.op = "vfp" -> VFA(ProbeWide, CHOOSE p \in WidePaths : PathStr(p) = op.arg)
     [] op.op = "newmap" -> NewMapResult(op.arg)
     [] op.op = "struct" -> IF op.arg = "elems" THEN SelectSeq(StructKeys, LAMBDA k : ~IsAttrK(o, k))
                            ELSE LET ks == SelectSeq(StructKeys, LAMBDA k : IsAttrK(o, k)) IN [i \in 1..Len(ks) |-> StripPfx(o, ks[i])]
@@ -134,9 +162,10 @@ Functional == \A i, j \in 1..Len(hist) :
                     => hist[i].r = hist[j].r
 \* an operation only depends on the registers its class lists (MxjOptions!Relevant)
 OpClass(op) == CASE op = "dec" -> "decodeCast" [] op = "seq" -> "decodeSeq" [] op = "enc" -> "encode" [] op = "leaf" -> "leaf" [] op = "query" -> "query"
-                 [] op = "upd" -> "query" [] op = "struct" -> "struct" [] op = "json" -> "jsonDecode"
+                 [] op = "upd" -> "query" [] op = "updk" -> "query" [] op = "struct" -> "struct" [] op = "json" -> "jsonDecode"
 RelOf(op) == IF op = "cast" THEN CastRegs \ {"skipTag"}
-             ELSE IF op = "newmap" THEN {}
+             ELSE IF op = "copy" THEN {"jsonUseNumber"}
+             ELSE IF op \in {"newmap", "vfp", "beautify", "rename"} THEN {}
              ELSE IF op = "seqrt" THEN Relevant["decodeSeq"] \cup Relevant["encodeSeq"]
              ELSE Relevant[OpClass(op)]
 OnlyRelevant == Len(hist) = MaxHist => \A op \in ActiveOpSet :      \* (evaluated where a session ends: it is a function of opt alone)
@@ -147,5 +176,5 @@ Emit == Len(hist) = MaxHist =>
    PrintT(ToJson([f |-> "mxj", hist |-> hist, restore |-> RestoreCalls(TRUE)]))
 AllFns == ToggleNames \cup {"DisableTrimWhiteSpace", "PrependAttrWithHyphen", "SetAttrPrefix", "XMLEscapeChars", "XMLEscapeCharsDecoder",
            "XmlGoEmptyElemSyntax", "XmlDefaultEmptyElemSyntax", "SetFieldSeparator", "SetArraySize", "SetGlobalKeyMapPrefix", "JsonUseNumber"}
-AllOpNames == {"dec", "seq", "enc", "leaf", "query", "cast", "upd", "struct", "seqrt", "json", "newmap"}
+AllOpNames == {"dec", "seq", "enc", "leaf", "query", "cast", "upd", "struct", "seqrt", "json", "newmap", "vfp", "beautify", "copy", "rename", "updk"}
 =============================================================================
